@@ -343,6 +343,17 @@ def s4(ctx, rep):
     # each trial enters a rung once
     ok = any(n.kind == "test" and f"trial_id in {recv}" in U(n.ast) for n in cfg.nodes)
     rep.put(ok, "S4", "guarded_by", "_Bracket.on_result: a trial already recorded at a rung is skipped", b, None, "")
+    # guard table of the rung walk (found thin by the generic mutation audit)
+    from .common import require_guard
+    recn = sorted(rec)
+    require_guard(ctx, rep, "S4", b, "_Bracket.on_result: the trial is recorded at a rung | the rung's level is reached and the trial is not recorded there yet", recn,
+                  [("not cur_iter < milestone", lambda a: a[0] == "le" and a[2] == "cur_iter"),
+                   (f"trial_id not in {recv}", lambda a: a[0] == "in" and a[1] == "trial_id" and a[2] == recv and a[3] is False)],
+                  "a trial is entered at rungs it has not reached, or entered twice")
+    prn = [n.id for n in cfg.nodes if any(x is call[0] for x in cfg.node_walk(n.id))]
+    require_guard(ctx, rep, "S4", b, "_Bracket.on_result: the priority is computed | the rung already has entries", prn,
+                  [(f"{recv} is not empty", lambda a: a[0] == "truth" and a[1] == recv and a[2] is True)],
+                  "the first trial at a rung is ranked against nothing (or later ones are never ranked)")
     # the scan takes the first rung whose level has been reached and leaves the loop: it lands on the HIGHEST rung reached only
     # if the rungs are stored highest level first
     binit = [g_ for g_ in P.functions.values() if g_.qualname.endswith("moasha._Bracket.__init__")]
